@@ -48,10 +48,13 @@ namespace verif
         bool file          = false;
         std::string file_ext;
         bool file_ct_arg   = false; // pass text/css as the content-type argument
+        // the handler answers through writer.clone() (what Rest::Router hands to every route handler and
+        // middleware) instead of the writer it was given; set by the harness that wants it
+        bool via_clone     = false;
 
         std::string describe() const
         {
-            std::string s = std::to_string(int(code));
+            std::string s = std::to_string(int(code)) + (via_clone ? " (through clone())" : "");
             for (auto& h : headers)
                 s += " [" + h.name + ": " + printable(h.text, 40) + "]";
             for (auto& c : cookies)
@@ -315,10 +318,14 @@ namespace verif
         // run the spec against a ResponseWriter; `on_settled(fulfilled, value)` is called from the
         // send() promise (fixed-length only)
         template <typename Settled>
-        Applied apply(const RespSpec& r, Pistache::Http::ResponseWriter& w, Settled on_settled)
+        Applied apply(const RespSpec& r, Pistache::Http::ResponseWriter& w_given, Settled on_settled)
         {
             using namespace Pistache::Http;
             Applied a;
+            std::optional<ResponseWriter> cloned;
+            if (r.via_clone)
+                cloned.emplace(w_given.clone());
+            ResponseWriter& w = r.via_clone ? *cloned : w_given;
             try
             {
                 for (auto& h : r.headers)
